@@ -201,3 +201,24 @@ def r10_self_loop(ctx):
 
 
 RULES += [r9_initial_states, r10_self_loop]
+
+
+def r12_wrapped_inclusion(ctx):
+    ctx.rule("C01.r12", "the stabilisation test `new_pre <= pre` and the join of block entries of the wrapped-interval domain rest on "
+             "wrapped_interval::operator<=: every yes of that operator over all pairs of width-3 circular intervals is an inclusion "
+             "(same rule instance as C13.r14)", floor=1)
+    from . import C13
+    C13.r14_wrapped_inclusion_exact(ctx)
+    r = ctx.rules.pop("C13.r14", None)
+    if r is not None:
+        tgt = ctx.rules["C01.r12"]
+        for k in ("ok", "bad", "undecided"):
+            tgt[k] += r[k]
+        tgt["samples"] += r["samples"]
+        for v in ctx.violations:
+            if v["rule"] == "C13.r14":
+                v["rule"] = "C01.r12"
+                v["rule_desc"] = tgt["desc"]
+
+
+RULES += [r12_wrapped_inclusion]
